@@ -95,8 +95,8 @@ claim(
 _TREE_NOTE = ("asyncio FIFO ready queue (never reordered); VLoop virtual time; generated code never swallows a cancellation; "
               "the independent shadow scope model (vf/shadow.py) is kept in lock-step by the interpreter; same-instant / in-flight "
               "ties accept both coherent outcomes and are counted in the evidence")
-claim("C01", "runtime monitor: generated task-tree programs interpreted against the real API on a virtual-time loop; per-group join oracle over the API-boundary event log (member ended, asyncio task done, handle final and truthful, no step after exit)",
-      "Held on every executed schedule: seeded random task trees (nested groups, spawn after cancel / from cleanup, start() children, shielded cleanup) with cancel/shield/deadline agents at every cycle, plus swept families (spawn during the empty-group exit checkpoint, cancels arriving at every cycle of __aexit__) on {stock, eager}.",
+claim("C01", "runtime monitor: generated task-tree programs interpreted against the real API on a virtual-time loop (plus a second engine: native cancellation of the host inside __aexit__ with a late spawn); per-group join oracle over the API-boundary event log (member ended, asyncio task done, handle final and truthful, no step after exit)",
+      "Held on every executed schedule: seeded random task trees (nested groups, spawn after cancel / from cleanup, start() children, shielded cleanup) with cancel/shield/deadline agents at every cycle, plus swept families (spawn during the empty-group exit checkpoint, cancels arriving at every cycle of __aexit__) on {stock, eager}; native-cancel-in-__aexit__ matrix on {stock, eager, uvloop}.",
       _TREE_NOTE, "DESIGN.md 5/C01")
 claim("C02", "runtime monitor: compositional exception-leaf accounting by object identity per group over the event log; siblings-cancelled clause through the shadow scope model",
       "Held on every executed schedule: seeded random failure plans (raise before/while/after being cancelled, Boom from cleanup, mixed synthetic groups, start() children whose caller is cancelled) plus the failure-then-shield family.",
@@ -118,11 +118,11 @@ claim("C07", "runtime monitor: case analysis over the logged order of started(),
       _TREE_NOTE, "DESIGN.md 5/C07")
 
 claim("C14", "runtime monitor with real threads: thread-safe event monitor (global sequence numbers) over gated thread functions, online bound on concurrently running non-abandoned functions, offline identity/ordering oracle; sys.monitoring preemption amplification; asyncio debug mode",
-      "Held on every executed call set: seeded call sets (1-12 calls vs limiter 1-4; return/raise/from_thread callbacks/check_cancelled probes; abandon_on_cancel on/off; nested scopes; cancels before start, while running, after the gate) with gate permutations and injected delays on asyncio(debug) and uvloop. Real-time: watchdog expiry is inconclusive.",
+      "Held (apart from the listed known finding F23: callbacks of abandoned threads) on every executed call set: seeded call sets (1-12 calls vs limiter 1-4; return/raise/from_thread callbacks (also ones taking an uncontended lock, with a loop-iteration counter against spinning)/check_cancelled probes; abandon_on_cancel on/off; nested scopes; cancels before start, while running, after the gate) with gate permutations and injected delays on asyncio(debug) and uvloop. Real-time: watchdog expiry is inconclusive.",
       "OS thread scheduling plus injected pauses (only pauses the OS could add); wall-clock watchdogs are inconclusive, never violations, unless all thread functions are known to have ended; a share of the cases lowers the class constant WorkerThread.MAX_IDLE_TIME (10 s) to 0-4 ms from the harness so that idle-worker pruning happens",
       "DESIGN.md 5/C14")
 claim("C15", "runtime monitor with real threads: exactly-once / routing / join oracle over a thread-safe event log of caller threads, portal tasks and a conductor thread; bounded-progress rule for future cancellation with a loop heartbeat; preemption amplification; known finding F14 classified by mechanism",
-      "Held (apart from the listed known finding F14) on every executed case: 1-6 caller threads x 1-8 calls (sync, coroutine, gated tasks, start_task), future cancellation, explicit stop mid-way, normal / early / exceptional exit on asyncio and uvloop.",
+      "Held (apart from the listed known finding F14) on every executed case: 1-6 caller threads (plain threads and worker threads of another event loop) x 1-8 calls (sync, coroutine, gated tasks, start_task, self-ending tasks whose future is cancelled around their completion), future cancellation, explicit stop mid-way, normal / early / exceptional exit on asyncio and uvloop.",
       "as C14; a wait that times out after the portal context exited is a violation (orphaned call), before that it is inconclusive",
       "DESIGN.md 5/C15")
 claim("C17", "fault enumeration by runtime monitoring: two real TLSStream endpoints over a harness-owned in-memory transport on the virtual-time loop; every ciphertext byte offset of the base session is cut in turn; position-dependent payload oracle; Deadlock detection for the pump loop",
@@ -130,7 +130,7 @@ claim("C17", "fault enumeration by runtime monitoring: two real TLSStream endpoi
       "OpenSSL via ssl, trustme certificates; the Wire delivers in order and a cut drops everything after the offset; the transport's send() takes 1-4 cycles and rejects a second concurrent sender like SocketStream does; after a detected truncation a second receive and a send are issued",
       "DESIGN.md 5/C17")
 
-claim("C18", "runtime monitor on real sockets: position-dependent byte-stream oracle, chunk-size bounds, in-flight-bytes bound sampled while the reader is stalled (SO_SNDBUF/SO_RCVBUF pinned), EOF / closed-stream / busy-direction probes, close by a third task under blocked receive()/send()",
+claim("C18", "runtime monitor on real sockets: position-dependent byte-stream oracle, chunk-size bounds, in-flight-bytes bound sampled while the reader is stalled (SO_SNDBUF/SO_RCVBUF pinned), EOF / closed-stream / busy-direction probes, close by a third task under blocked receive()/send(), close under cancellation / racing send, timed-out sends against a silent peer (user-space write buffer bounded)",
       "Held on every executed session: TCP loopback and UNIX sockets on asyncio and uvloop, both role assignments (accepted side reading / connecting side reading), message sizes 1 B..256 KiB and 1-2 MiB stall sessions, reader stalls before the first receive and mid-stream, full duplex, EOF by send_eof and aclose.",
       "Linux loopback/AF_UNIX semantics; real time: sessions without completion inside the watchdog are inconclusive - except a receive()/send() still blocked 15 s after the local close, which the statement forbids (never blocking); sessions over un-shrunk kernel buffers judge integrity/order only (no fixed capacity for the in-flight bound)",
       "DESIGN.md 5/C18")
